@@ -33,8 +33,8 @@ impl WalRecuperator {
 
     /// Runs the recovery
     pub(crate) fn run_recovery(&mut self, analysis: &AnalysisResult) -> RuntimeResult<()> {
-        self.run_undo(&analysis)?;
         self.run_redo(&analysis)?;
+        self.run_undo(&analysis)?;
 
         Ok(())
     }
